@@ -277,9 +277,23 @@ pub fn random_elf(r: &mut Rng, rich: bool) -> (ElfSpec, Built) {
     // fields no property mentions still vary: code that branches on the kind of object, the machine or its flags
     // must give the same answers
     sp.e_type = *r.pick(&[3u64, 3, 2, 1, 4, 4, 0, 0xfe00, 0xff00, 0xffff]);
-    sp.e_machine = *r.pick(&[if class == 32 { 3u64 } else { 62 }, 62, 3, 8, 20, 21, 40, 183, 243, 0, 0xffff]);
+    sp.e_machine = match r.below(4) {
+        0 => if class == 32 { 3 } else { 62 },
+        // every machine with a supplement that special-cases something (64-bit hash entries on Alpha / s390x, MIPS's
+        // own section types, ...), and unknown ones
+        1 => *r.pick(&[2u64, 3, 8, 15, 18, 20, 21, 22, 40, 43, 50, 62, 183, 243, 247, 258, 0x9026]),
+        2 => r.below(260),
+        _ => *r.pick(&[0u64, 1, 0xff, 0x100, 0x7fff, 0x8000, 0xfffe, 0xffff]),
+    };
     sp.e_flags = if r.chance(1, 2) { 0 } else { r.edge64() & 0xffff_ffff };
     sp.secs.push(Sec::default());
+    // ... and so do the fields of shdr[0] that carry nothing
+    if r.chance(1, 6) {
+        sp.secs[0].ty = *r.pick(&[1u32, 8, 0x7000_0000, 0xffff_ffff]);
+        sp.secs[0].flags = *r.pick(&[0u64, 2, 0x800, u64::MAX]);
+        sp.secs[0].align = *r.pick(&[0u64, 1, 8, u64::MAX]);
+        sp.secs[0].entsize = *r.pick(&[0u64, 1, 24, u64::MAX]);
+    }
     let symsz = if class == 32 { 16 } else { 24 };
     let dynsz = if class == 32 { 8 } else { 16 };
     let mut sym_names: Vec<Vec<u8>> = vec![];
@@ -317,7 +331,7 @@ pub fn random_elf(r: &mut Rng, rich: bool) -> (ElfSpec, Built) {
         sp.secs.push(sec(b".dynstr", SHT_STRTAB, strtab));
         dynsym_idx = sp.secs.len();
         let mut s = sec(b".dynsym", SHT_DYNSYM, symtab); s.link = dynstr_i as u32; s.entsize = symsz; s.info = 1; s.align = 8; sp.secs.push(s);
-        if want(r) { let mut s = sec(b".hash", SHT_HASH, sysv); s.link = dynsym_idx as u32; s.entsize = 4; s.align = 4; sp.secs.push(s); }
+        if want(r) { let mut s = sec(b".hash", SHT_HASH, sysv); s.link = dynsym_idx as u32; s.entsize = *r.pick(&[4u64, 4, 4, 8, 0]); s.align = 4; sp.secs.push(s); }
         if want(r) { let mut s = sec(b".gnu.hash", SHT_GNU_HASH, gnu); s.link = dynsym_idx as u32; s.align = 8; sp.secs.push(s); }
         // symbol versions
         if want(r) {
@@ -503,6 +517,33 @@ pub fn corrupt(b: &mut Built, little: bool, r: &mut Rng) -> Vec<String> {
     what
 }
 
+/// a relational corruption: the section a table links to (its string table) is made to designate a range that
+/// strictly encloses the table's own range (or the other way round), so that the two ranges a multi-range
+/// accessor loads are nested
+pub fn nest_linked(b: &mut Built, sp: &ElfSpec, r: &mut Rng) -> Option<String> {
+    let cands: Vec<usize> = (1..sp.secs.len()).filter(|&i| {
+        let s = &sp.secs[i];
+        [SHT_SYMTAB, SHT_DYNSYM, SHT_GNU_VERNEED, SHT_GNU_VERDEF, SHT_DYNAMIC].contains(&s.ty) && (s.link as usize) > 0
+            && (s.link as usize) < sp.secs.len() && !s.data.is_empty()
+    }).collect();
+    if cands.is_empty() { return None; }
+    let a = *r.pick(&cands);
+    let l = sp.secs[a].link as usize;
+    let (inner, outer) = if r.chance(3, 4) { (a, l) } else { (l, a) };
+    let (ioff, ilen) = (sp.secs[inner].off, sp.secs[inner].data.len() as u64);
+    let d1 = r.range(1, 3).min(ioff);
+    let d2 = r.range(1, 3);
+    if d1 == 0 || ioff + ilen + d2 > b.bytes.len() as u64 { return None; }
+    let fo = b.fields.iter().position(|f| f.2 == format!("sh{outer}.sh_offset"))?;
+    let fs = b.fields.iter().position(|f| f.2 == format!("sh{outer}.sh_size"))?;
+    for (fi, v) in [(fo, ioff - d1), (fs, ilen + d1 + d2)] {
+        let (off, w, _) = b.fields[fi].clone();
+        let mut e = Vec::new(); put(&mut e, v, w, sp.little);
+        b.bytes[off..off + w].copy_from_slice(&e);
+    }
+    Some(format!("nest: sh{outer} encloses sh{inner}"))
+}
+
 fn mutate_shdr(h: &Value, r: &mut Rng, flen: u64) -> Value {
     let mut m = h.clone();
     let pickv = |r: &mut Rng| match r.below(5) { 0 => *r.pick(&EDGE_VALS), 1 => flen, 2 => flen.wrapping_sub(1), 3 => flen + 1, _ => r.below(flen + 1) };
@@ -644,6 +685,11 @@ pub fn garbage_family(r: &mut Rng, n: u64, x: &mut Exec, sink: &mut Sink) {
 /// dense or sparse buffer event for a file
 pub fn sparse_buf_op(slot: &str, bytes: &[u8]) -> Value {
     if bytes.len() <= 8192 { return file_buf_op(slot, bytes); }
+    // everything that is not zero sits in the first 16 KiB: one chunk (the specification indexes it directly)
+    let last = bytes.iter().rposition(|b| *b != 0).map(|i| i + 1).unwrap_or(0);
+    if last <= 16384 {
+        return json!({"op":"buf","slot":slot,"len":bytes.len(),"fill":0,"chunks":[{"off":0,"bytes":bytes_val(&bytes[..last])}]});
+    }
     let mut chunks = Vec::new();
     let mut i = 0usize;
     while i < bytes.len() {
@@ -665,6 +711,12 @@ fn reader_spec(r: &mut Rng, benign_faults: bool) -> Value {
     let mut faults = Vec::new();
     if benign_faults {
         for _ in 0..r.below(4) { faults.push(json!([r.below(60), *r.pick(&["interrupted", "short"])])); }
+        // a burst of consecutive EINTRs (a signal storm): read_exact retries as long as it takes
+        if r.chance(1, 3) {
+            let start = r.below(40);
+            let len = *r.pick(&[2u64, 3, 7, 8, 9, 10, 16, 17, 33, 64, 65, 100, 255, 256, 257]);
+            for k in 0..len { faults.push(json!([start + k, "interrupted"])); }
+        }
     }
     json!({"chunk": chunk, "seed": r.next() >> 1, "faults": faults})
 }
@@ -693,7 +745,10 @@ pub fn stream_family(r: &mut Rng, n: u64, x: &mut Exec, sink: &mut Sink, mode: &
             }
         } else if corrupt_it {
             note = corrupt(&mut b, sp.little, r);
+        } else if mode == "plain" && (it % 3 == 2 || r.chance(1, 4)) {
+            if let Some(w) = nest_linked(&mut b, &sp, r) { note.push(w); }
         }
+        let nested = note.iter().any(|w| w.starts_with("nest:"));
         sink.run(x, &json!({"op":"session","family":format!("stream-{mode}"),"what":note}));
         sink.run(x, &sparse_buf_op("file", &b.bytes));
         let es = if r.chance(3, 4) { "Any" } else if sp.little { "LE" } else { "BE" };
@@ -722,7 +777,7 @@ pub fn stream_family(r: &mut Rng, n: u64, x: &mut Exec, sink: &mut Sink, mode: &
                         let acc = match ty { SHT_SYMTAB => "symbol_table", SHT_DYNSYM => "dynamic_symbol_table", SHT_GNU_VERSYM => "symbol_version_table",
                             SHT_NOTE => "section_data_as_notes", SHT_REL => "section_data_as_rels", SHT_RELA => "section_data_as_relas",
                             SHT_STRTAB => "section_data_as_strtab", SHT_DYNAMIC => "dynamic", _ => continue };
-                        if !r.chance(2, 3) { continue; }
+                        if !nested && !r.chance(2, 3) { continue; }
                         let hsz = rd_w(&h["sh_size"]).min(flen);
                         let hoff = rd_w(&h["sh_offset"]).min(flen);
                         let mut prelude: Vec<Value> = vec![json!({"op":"sq","name":"section_data","shdr":h.clone()})];
@@ -731,7 +786,7 @@ pub fn stream_family(r: &mut Rng, n: u64, x: &mut Exec, sink: &mut Sink, mode: &
                                             // ranges sharing the section's own start (longer, shorter) or its end
                                             (hoff, flen - hoff), (hoff, hsz / 2), (hoff, (hsz + 1).min(flen - hoff)),
                                             (hoff.saturating_sub(1), (hsz + 1).min(flen - hoff.saturating_sub(1))), (hoff + hsz / 2, hsz - hsz / 2)] {
-                            if r.chance(1, 2) { continue; }
+                            if !(nested && off <= 1) && r.chance(1, 2) { continue; }    // (nested ranges: the cache then holds more bytes than the stream has)
                             let mut hh = h.clone(); hh["sh_type"] = w4(1); hh["sh_flags"] = w8(0); hh["sh_offset"] = w8(off); hh["sh_size"] = w8(size);
                             prelude.push(json!({"op":"sq","name":"section_data","shdr":hh}));
                         }
@@ -818,6 +873,12 @@ pub fn stream_family(r: &mut Rng, n: u64, x: &mut Exec, sink: &mut Sink, mode: &
         }
         let kinds = ["error", "eof", "short", "interrupted"];
         let mut points: Vec<(u64, &str)> = Vec::new();
+        // bursts of consecutive EINTRs (benign, however long): (first I/O call index, length)
+        const BURSTS: [u64; 9] = [2, 3, 8, 9, 10, 17, 33, 65, 257];
+        let mut bursts: Vec<(u64, u64)> = Vec::new();
+        for (i, l) in BURSTS.iter().enumerate() {
+            if mode == "faultall" || i as u64 % 3 == it % 3 { bursts.push((r.below(total.max(1)), *l)); }
+        }
         if mode == "faultall" {
             // every I/O call index: both hard fault kinds (alternating when the script is long)
             for k in 0..total {
@@ -829,16 +890,18 @@ pub fn stream_family(r: &mut Rng, n: u64, x: &mut Exec, sink: &mut Sink, mode: &
             for _ in 0..12 { points.push((r.below(total.max(1)), *r.pick(&["error", "wouldblock", "timedout", "unexpectedeof", "eof", "short", "interrupted"]))); }
             points.push((0, "error"));
         }
-        for (k, kind) in points {
-            sink.run(x, &json!({"op":"session","family":format!("stream-{mode}"),"fault":[k, kind]}));
+        let mut plan: Vec<(u64, &str, u64)> = points.iter().map(|(k, kd)| (*k, *kd, 1u64)).collect();
+        plan.extend(bursts.iter().map(|(k, l)| (*k, "interrupted", *l)));
+        for (k, kind, blen) in plan {
+            sink.run(x, &json!({"op":"session","family":format!("stream-{mode}"),"fault":[k, kind, blen]}));
             sink.run(x, &sparse_buf_op("file", &b.bytes));
             // the recorded script in its original order, or (half of the time) in a random order, so that the
             // fault lands between arbitrary pairs of queries
             let mut order: Vec<usize> = (1..script.len()).collect();
             if r.chance(1, 2) { for i in (1..order.len()).rev() { let j = r.below(i as u64 + 1) as usize; order.swap(i, j); } }
             let mut o = script[0].clone();
-            o["reader"]["faults"] = json!([[k, kind]]);
-            if r.chance(1, 8) { o["reader"]["perm_from"] = json!(k); }
+            o["reader"]["faults"] = Value::Array((0..blen).map(|i| json!([k + i, kind])).collect());
+            if blen == 1 && r.chance(1, 8) { o["reader"]["perm_from"] = json!(k); }
             sink.run(x, &o);
             for i in &order { sink.run(x, &script[*i]); }
             // the same queries again on the same stream object, no new faults
@@ -849,14 +912,26 @@ pub fn stream_family(r: &mut Rng, n: u64, x: &mut Exec, sink: &mut Sink, mode: &
 
 /// C18: every interesting prefix of a file (and extensions of it); slot "full" holds the longer file
 pub fn prefix_family(r: &mut Rng, n: u64, x: &mut Exec, sink: &mut Sink, every: bool) {
-    for _ in 0..n {
+    for it in 0..n {
+        // every other object carries one section of a little over 1 MiB (zero-filled, recorded sparsely): a reader that
+        // treats large ranges differently from small ones meets the writer that stopped early in the middle of it
+        let big = !every && it % 2 == 1;
         let (sp, b) = loop {
             let (mut sp, _) = random_elf(r, true);
             // tables early so that most prefixes still open
             sp.tables_early = true; sp.gap = 0; sp.overlap = false;
             for s in sp.secs.iter_mut() { if let Some(z) = s.nobits { if z > 1 << 20 { s.nobits = Some(64); } } }
             let mut nb = layout(&mut sp, r);
-            if nb.bytes.len() < 1500 || every { let (_, ob) = (0, 0); let _ = (ob,); nb.sym_names = vec![]; break (sp, nb); }
+            if nb.bytes.len() < 1500 || every {
+                if big {
+                    let k = (1usize << 20) + *r.pick(&[0usize, 1, 7, 4096]);
+                    let mut s = sec(b".big", SHT_PROGBITS, vec![0u8; k]); s.align = 1;
+                    sp.secs.push(s);
+                    if sp.have_phdrs { sp.segs.push(Seg { ty: 1, flags: 4, sec: Some(sp.secs.len() - 1), align: 1, ..Default::default() }); }
+                    nb = layout(&mut sp, r);
+                }
+                let (_, ob) = (0, 0); let _ = (ob,); nb.sym_names = vec![]; break (sp, nb);
+            }
         };
         let full = b.bytes.clone();
         let mut cuts: Vec<usize> = Vec::new();
@@ -874,15 +949,33 @@ pub fn prefix_family(r: &mut Rng, n: u64, x: &mut Exec, sink: &mut Sink, every: 
             for _ in 0..6 { cuts.push(r.below(full.len() as u64) as usize); }
             cuts.push(full.len() - 1);
             cuts.sort(); cuts.dedup();
+            if big {
+                // the large object: only the cuts that concern the large section (every event on a megabyte-sized sparse
+                // file costs TLC tens of milliseconds)
+                let bs = sp.secs.last().map(|s| (s.off as usize, s.data.len())).unwrap_or((0, 0));
+                let near: Vec<usize> = vec![bs.0, bs.0 + 1, bs.0 + bs.1 / 2, bs.0 + (1 << 20) - 1, bs.0 + (1 << 20), bs.0 + (1 << 20) + 1,
+                                            bs.0 + bs.1 - 1, bs.0 + bs.1, full.len() - 1];
+                let mut keep: Vec<usize> = near.into_iter().filter(|c| *c < full.len()).collect();
+                for _ in 0..3 { keep.push(*r.pick(&cuts)); }
+                keep.sort(); keep.dedup();
+                cuts = keep;
+            }
         }
         let es = *r.pick(&["Any", "Any", if sp.little { "LE" } else { "BE" }]);
         for c in cuts {
             sink.run(x, &json!({"op":"session","family":"prefix","cut":c,"of":full.len()}));
-            sink.run(x, &file_buf_op("full", &full));
-            sink.run(x, &file_buf_op("file", &full[..c]));
+            sink.run(x, &sparse_buf_op("full", &full));
+            sink.run(x, &sparse_buf_op("file", &full[..c]));
             let evs = sink.run(x, &json!({"op":"open","es":es,"fileslot":"file"}));
-            let pb = Built { bytes: full[..c].to_vec(), sec_names: b.sec_names.clone(), sym_names: b.sym_names.clone(), nversym: b.nversym, ..Default::default() };
+            // (the length below only bounds the sizes of the caller-made header variants: typed views over a megabyte of
+            //  zeros are thousands of records, which judge nothing new and take TLC minutes)
+            let pb = Built { bytes: full[..c.min(4096)].to_vec(), sec_names: b.sec_names.clone(), sym_names: b.sym_names.clone(), nversym: b.nversym, ..Default::default() };
             if let Some(ev) = evs.first() { sweep(r, x, sink, &pb, ev, "q", true); }
+            // the same prefix through the stream parser (the property names both)
+            if big || (!every && r.chance(1, 3)) {
+                let evs = sink.run(x, &json!({"op":"sopen","es":es,"fileslot":"file","reader":{"chunk":"full","seed":1,"faults":[]}}));
+                if let Some(ev) = evs.first() { sweep(r, x, sink, &pb, ev, "sq", true); }
+            }
         }
         // appending arbitrary bytes: the original is the prefix
         for _ in 0..2 {
@@ -890,10 +983,11 @@ pub fn prefix_family(r: &mut Rng, n: u64, x: &mut Exec, sink: &mut Sink, every: 
             let k = r.range(1, 40) as usize;
             ext.extend(r.bytes(k));
             sink.run(x, &json!({"op":"session","family":"prefix","append":k}));
-            sink.run(x, &file_buf_op("full", &ext));
-            sink.run(x, &file_buf_op("file", &full));
+            sink.run(x, &sparse_buf_op("full", &ext));
+            sink.run(x, &sparse_buf_op("file", &full));
             let evs = sink.run(x, &json!({"op":"open","es":es,"fileslot":"file"}));
-            if let Some(ev) = evs.first() { sweep(r, x, sink, &b, ev, "q", true); }
+            let bb = Built { bytes: full[..full.len().min(4096)].to_vec(), sec_names: b.sec_names.clone(), sym_names: b.sym_names.clone(), nversym: b.nversym, ..Default::default() };
+            if let Some(ev) = evs.first() { sweep(r, x, sink, &bb, ev, "q", true); }
         }
     }
 }
@@ -910,11 +1004,13 @@ pub fn locate_family(r: &mut Rng, n: u64, x: &mut Exec, sink: &mut Sink) {
         for i in 1..nsec.min(6) { let k = r.below(12) as usize; sp.secs.push(sec(format!(".s{i}").as_bytes(), SHT_PROGBITS, r.bytes(k))); }
         while sp.secs.len() < nsec { sp.secs.push(Sec::default()); }
         // the section name string table: below / at / above 0xff00 when there are that many sections
-        let ndx = if nsec > 0xff00 { *r.pick(&[2usize.min(nsec - 1), 0xfeff, 0xff00, nsec - 1]) } else { r.range(0, nsec as u64 - 1) as usize };
+        let ndx = if nsec > 0xff00 { *r.pick(&[2usize.min(nsec - 1), 0xfeff, 0xff00, 0xff01.min(nsec - 1), 0xfffe.min(nsec - 1), nsec - 1]) } else { r.range(0, nsec as u64 - 1) as usize };
         if ndx > 0 { sp.secs[ndx] = sec(b".shstrtab", SHT_STRTAB, vec![]); }
         sp.shstrndx = ndx;
         sp.ext_shnum = nsec >= 0xff00 || r.chance(1, 4);
-        sp.ext_shstrndx = ndx >= 0xff00 || (ndx > 0 && r.chance(1, 4));
+        // an index in the reserved range 0xff00..0xfffe is sometimes written into e_shstrndx directly: the crate takes
+        // the field literally unless it is SHN_XINDEX, and both parsers must take it the same way
+        sp.ext_shstrndx = ndx >= 0xffff || (ndx >= 0xff00 && r.chance(1, 2)) || (ndx > 0 && r.chance(1, 4));
         sp.ext_phnum = nseg >= 0xffff || (nseg > 0 && r.chance(1, 4));
         for _ in 0..nseg.min(4) { sp.segs.push(Seg { ty: 1, flags: 5, sec: Some(r.range(0, nsec.min(6) as u64 - 1) as usize), align: 16, ..Default::default() }); }
         while sp.segs.len() < nseg { sp.segs.push(Seg::default()); }
